@@ -361,6 +361,7 @@ def gen_case_c14(seed, tier):
     nsteps = sw.randint(3, 14)
     # fault: during some queries EVERY trial of the inner search fails (the query may fail; nothing wrong may be returned
     # or stored, and later queries must be answered correctly)
+    disk_faults = sw.random() < 0.3
     trial_faults = kind == "hyper" and sw.random() < 0.3
     if trial_faults:
         cfg0["methods"] = ["sim-c14-greedy"]
@@ -389,6 +390,10 @@ def gen_case_c14(seed, tier):
                 steps[-1]["fail_trials"] = True
             # right after the answer a fresh cache_only process reads the entry back: it must hold what was just returned
             steps[-1]["readback"] = ops_rng.random() < 0.3
+            # fault: one mutating system call made on behalf of this query fails with ENOSPC (for a write possibly after a
+            # prefix reached the disk); the process lives on
+            if use_dir and disk_faults and ops_rng.random() < 0.2:
+                steps[-1]["disk_error"] = {"op": ops_rng.randint(0, 5), "bytes": ops_rng.choice([None, None, 1, 17, 60])}
         elif r < 0.88:
             steps.append({"step": "restart", "cfg": gen_cfg_changes()})
         else:
@@ -431,6 +436,7 @@ def run_case_c14(case):
     restarts = 0
     stored_once = False
     live_inputs, live_output, live_sizes = [], [], {}
+    tainted = set()
 
     def V(oracle, detail, **sig):
         s = {"kind": kind, "hash_method": hash_method, "dir": bool(directory),
@@ -470,6 +476,9 @@ def run_case_c14(case):
                     opt = None
                     if directory is None:
                         model.clear()  # memory-only cache dies with the process
+                    for tk in tainted:
+                        if tk in model:
+                            model[tk] = dict(model[tk], path=None, score=None, sliced=None, maybe=True)
                     opt = make_optimizer(ctg, fix_layout(cfg), directory)
                     log.add("restart", si, cfg)
                     continue
@@ -531,6 +540,10 @@ def run_case_c14(case):
                 res = None
                 fired0 = _TRIAL_FAULT["fired"]
                 _TRIAL_FAULT["armed"] = bool(st.get("fail_trials"))
+                derr0 = fsim.errors_fired
+                if st.get("disk_error") and directory is not None:
+                    fsim.error_at = {len(fsim.ops) + int(st["disk_error"]["op"])}
+                    fsim.error_bytes = st["disk_error"].get("bytes")
                 try:
                     if st["via"] == "search":
                         res = opt.search(*args)
@@ -539,14 +552,35 @@ def run_case_c14(case):
                 except KeyError as e:
                     err = e
                 except Exception as e:
-                    if _TRIAL_FAULT["fired"] > fired0:
+                    if _TRIAL_FAULT["fired"] > fired0 or fsim.errors_fired > derr0:
                         err = e
                     else:
                         V("query-raised", f"step {si} ({st['via']}) raised {type(e).__name__}: {e}", via=st["via"])
                         break
                 finally:
                     _TRIAL_FAULT["armed"] = False
+                    fsim.error_at = None
+                    fsim.error_bytes = None
                 searched = sc.n - n0
+                if fsim.errors_fired > derr0:
+                    # a system call of this query failed (disk full): the query may fail, and whether its entry got stored
+                    # is unknown - but an answer, if any, must be for this query, and later queries must be right
+                    faults["disk_error_injected"] += 1
+                    log.add("query-with-disk-error", si, hk, st["via"], None if err is None else type(err).__name__)
+                    # (stored_once stays as it is: whether this store established the directory's layout is unknown, so a
+                    # flat-layout directory keeps being named explicitly until a store has certainly succeeded)
+                    if err is None and res is not None:
+                        why = check_tree(res, q) if st["via"] == "search" else check_path(res, q)
+                        if why:
+                            V("answer-not-for-this-query", f"step {si} (after a disk error): {why}", via=st["via"], variant=q["why"])
+                            break
+                    else:
+                        counters["probe:query_failed_after_disk_error"] += 1
+                    model[hk] = {"path": None, "score": None, "sliced": None, "canon": canon_a(q), "q": q, "maybe": True}
+                    # the writing process keeps the entry in memory although it may never have reached the disk: for the
+                    # rest of the run, what OTHER processes find under this key is uncertain (lost, never wrong)
+                    tainted.add(hk)
+                    continue
                 if _TRIAL_FAULT["fired"] > fired0:
                     # every trial of this query's search was made to fail
                     faults["all_trials_failed"] += 1
@@ -574,7 +608,7 @@ def run_case_c14(case):
                     should_refuse = (entry is None) or bool(ow)
                     if err is not None:
                         counters["probe:cache_only_refusal"] += 1
-                        if not should_refuse:
+                        if not should_refuse and not entry.get("maybe"):
                             V("cache-only-refused-present-entry", f"step {si}: KeyError although the entry was acknowledged earlier: {err}")
                             break
                         continue
@@ -596,10 +630,12 @@ def run_case_c14(case):
                         if ow == "improved" and entry is not None:
                             counters["probe:improved_overwrite_search"] += 1
                     else:
-                        if searched != 0:
+                        if searched != 0 and not entry.get("maybe"):
                             V("searched-again-on-repeat", f"step {si}: entry present and overwrite=False but {searched} inner search(es) ran")
                             break
                 hit = (entry is not None) and (searched == 0)
+                if hit and entry.get("maybe"):
+                    counters["probe:entry_survived_disk_error"] += 1
                 if hit:
                     counters["probe:hit_after_restart" if restarts else "probe:hit_same_process"] += 1
                     if hash_method == "b":
@@ -659,7 +695,7 @@ def run_case_c14(case):
                         new = {"path": got_path, "score": got_score if kind == "hyper" else got_score, "sliced": got_sliced, "canon": canon_a(q), "q": q}
                     else:
                         new = {"path": got_path, "score": None, "sliced": None, "canon": canon_a(q), "q": q}
-                    if entry is None or ow is True:
+                    if entry is None or ow is True or entry.get("maybe"):
                         model[hk] = new
                     elif ow == "improved":
                         # the library keeps whichever is better; the returned answer is the kept one
@@ -673,7 +709,10 @@ def run_case_c14(case):
                             # path only: we cannot tell the score; keep the better-known bound
                             new["score"] = None
                         model[hk] = new
-                if st.get("readback") and directory is not None and not co and st["via"] == "search" and (searched or hit):
+                elif hit and entry.get("maybe") and st["via"] == "search":
+                    # the entry did get stored before the disk error: from now on it is an ordinary acknowledged entry
+                    model[hk] = {"path": got_path, "score": got_score, "sliced": got_sliced, "canon": canon_a(q), "q": q}
+                if st.get("readback") and directory is not None and not co and st["via"] == "search" and (searched or hit) and hk not in tainted:
                     # a fresh process, cache_only: the directory must hold exactly what this query was just given
                     rcfg = dict(cfg)
                     rcfg.update(cache_only=True, overwrite=False)
